@@ -597,7 +597,38 @@ func runWalk(t *testing.T, rep *Report, prof profile, seed uint64, walk int, act
 		}
 		held := []*Call{}
 		acked := map[int]bool{}
+		// slow snapshots: now and then the next Snapshot() call of a node parks (its label is already
+		// fixed, the lock released) and is let go a few actions later, so that entries are applied,
+		// requests handled and other snapshots installed while it runs
+		slowSnap := map[uint64]int{}
+		slowFSM := map[uint64]*SimFSM{} // the incarnation whose gate is set (it may be a zombie by the time of the release)
+		releaseSnap := func(id uint64) {
+			if f := slowFSM[id]; f != nil && f.GateSnapshot != nil {
+				close(f.GateSnapshot)
+				f.GateSnapshot = nil
+			}
+			delete(slowSnap, id)
+			delete(slowFSM, id)
+		}
 		for a := 0; a < actions; a++ {
+			if prof.snapEvery > 0 {
+				for _, id := range sortedKeys(slowSnap) {
+					slowSnap[id]--
+					if slowSnap[id] <= 0 || s.Nodes[id] == nil || s.Nodes[id].FSM != slowFSM[id] {
+						w.note("node %d: a parked Snapshot() call (if any) continues", id)
+						releaseSnap(id)
+					}
+				}
+				if ids := s.IDs(); len(ids) > 0 && rng.Chance(3) {
+					id := ids[rng.Intn(len(ids))]
+					if _, busy := slowSnap[id]; !busy && s.Nodes[id].FSM.GateSnapshot == nil && !w.armed[id] {
+						s.Nodes[id].FSM.GateSnapshot = make(chan struct{})
+						slowFSM[id] = s.Nodes[id].FSM
+						slowSnap[id] = 2 + rng.Intn(12)
+						w.note("node %d: its next Snapshot() call will park for %d actions", id, slowSnap[id])
+					}
+				}
+			}
 			r := rng.Intn(100)
 			total := 0
 			pick := func(p int) bool { total += p; return r < total }
@@ -792,12 +823,18 @@ func runWalk(t *testing.T, rep *Report, prof profile, seed uint64, walk int, act
 			}
 		}
 		if halted {
+			for _, id := range sortedKeys(slowSnap) {
+				releaseSnap(id)
+			}
 			rep.Case(w.walkID, len(w.Ops) > 0)
 			rep.Evaluations += len(w.Trace)
 			rep.Hit("walk:" + prof.name)
 			rep.Hit("walk-ended-by-fatal-restore")
 			s.StopAll()
 			return
+		}
+		for _, id := range sortedKeys(slowSnap) {
+			releaseSnap(id)
 		}
 		// ---- quiet period: heal, restart, deliver promptly; the cluster must converge (C15)
 		w.note("--- quiet period ---")
